@@ -9,6 +9,7 @@ import (
 	"fmt"
 	"go/ast"
 	"go/printer"
+	"go/scanner"
 	"go/token"
 	"regexp"
 	"strings"
@@ -19,13 +20,21 @@ type skelSpec struct {
 	calls           string // regexp over printed callee for calls worth recording
 	assigns         string // optional regexp over the printed left-hand side of assignments worth recording
 	returns         bool   // record the returned expressions too
+	// idents: also emit `<lean>_ids : List (List String)` — for every line of the skeleton the identifiers
+	// that occur in the statement (go/scanner over the untruncated text, string literals excluded) — and
+	// `<lean>_sig : String`, the printed signature (receiver and parameter names).  Data-flow ties ("every
+	// statement that mentions x") use these instead of substring search, which is slow in the Lean kernel.
+	idents bool
 }
 
 const defaultCalls = `(\.|^)(Lock|Unlock|RLock|RUnlock|Do|Wait|Done|Add)$|^(close|delete|panic|make)$|^heap\.|^time\.After$|\.Close$`
 
+// noTrunc switches the 90-character cut of exprStrShort off (second pass of emitSkel for `idents`).
+var noTrunc bool
+
 func exprStrShort(fset *token.FileSet, e ast.Node) string {
 	s := exprStr(fset, e)
-	if len(s) > 90 {
+	if len(s) > 90 && !noTrunc {
 		s = s[:90] + "…"
 	}
 	return s
@@ -314,4 +323,57 @@ func emitSkel(b *strings.Builder, sp skelSpec) {
 		fmt.Fprintf(b, "  %s%s\n", leanStr(f), sep)
 	}
 	b.WriteString("]\n\n")
+	if sp.idents {
+		noTrunc = true
+		full := k.block(fd.Body.List)
+		noTrunc = false
+		if len(full) != len(facts) {
+			fmt.Fprintf(b, "theorem translator_unsupported_%s_ids : False := by trivial\n\n", sp.lean)
+			return
+		}
+		fmt.Fprintf(b, "/-- identifiers occurring in each line of `%s` (same order, same length) -/\ndef %s_ids : List (List String) := [\n", sp.lean, sp.lean)
+		for i, f := range full {
+			sep := ","
+			if i == len(full)-1 {
+				sep = ""
+			}
+			var qs []string
+			for _, id := range lineIdents(f) {
+				qs = append(qs, leanStr(id))
+			}
+			fmt.Fprintf(b, "  [%s]%s\n", strings.Join(qs, ", "), sep)
+		}
+		b.WriteString("]\n\n")
+		sig := *fd
+		sig.Body, sig.Doc = nil, nil
+		fmt.Fprintf(b, "/-- signature of `%s` `%s` -/\ndef %s_sig : String := %s\n\n", sp.dir, sp.name, sp.lean, leanStr(exprStr(p.fset, &sig)))
+	}
+}
+
+// lineIdents lists the identifiers of one skeleton line (first occurrence order, no duplicates); the
+// leading fact-kind word of the line is not an identifier of the statement.
+func lineIdents(line string) []string {
+	for _, kind := range []string{"assign ", "call ", "lit ", "send ", "recv ", "incdec ", "makechan "} {
+		if strings.HasPrefix(line, kind) {
+			line = line[len(kind):]
+			break
+		}
+	}
+	var sc scanner.Scanner
+	fs := token.NewFileSet()
+	src := []byte(line)
+	sc.Init(fs.AddFile("", fs.Base(), len(src)), src, func(token.Position, string) {}, 0)
+	var out []string
+	seen := map[string]bool{}
+	for {
+		_, tok, lit := sc.Scan()
+		if tok == token.EOF {
+			break
+		}
+		if tok == token.IDENT && !seen[lit] {
+			seen[lit] = true
+			out = append(out, lit)
+		}
+	}
+	return out
 }
